@@ -207,6 +207,31 @@ def run(args):
             "fn main() { spawn child(1); spawn child(2); for i in 0..100 { g.push(0); } println(\"main\"); }\n",
             ["child 1", "child 2", "main"]),
     }
+    # the same for every shape of argument that holds a list or an object somewhere inside: the thread gets the VALUE given
+    # at the spawn, whatever the spawner does to the parts afterwards and whatever the thread does to its copy
+    shapes = [   # (name, parameter type, argument expression over l / ob, what the thread reads, what it shows)
+        ("list", "[int]", "l", "a.len()", "[1]"),
+        ("object", "{ n: int, l: [int] }", "ob", "a.l.len() + a.n", "{\n    l: [1],\n    n: 1\n}"),
+        ("option-of-list", "?[int]", "?l", "a.unwrap().len()", "Some([1])"),
+        ("option-of-object", "?{ n: int, l: [int] }", "?ob", "a.unwrap().l.len()", "Some({\n    l: [1],\n    n: 1\n})"),
+        ("list-of-lists", "[[int]]", "[l, l]", "a[0].len() + a[1].len()", "[[1], [1]]"),
+        ("list-of-options", "[?[int]]", "[?l]", "a[0].unwrap().len()", "[Some([1])]"),
+        ("object-with-option", "{ o: ?[int] }", "new { o: ?l }", "a.o.unwrap().len()", "{\n    o: Some([1])\n}"),
+        ("option-of-option", "??[int]", "??l", "a.unwrap().unwrap().len()", "Some(Some([1]))"),
+    ]
+    for sname, ty, argx, read, shown in shapes:
+        shared["arg-%s-mutated-by-spawner" % sname] = (
+            "fn child(a: %s) { let s = 0; for i in 0..150 { s += %s; } println(\"child\", a); }\n"
+            "fn main() { let l = [1]; let ob = new { n: 1, l: l }; spawn child(%s); for i in 0..150 { l.push(i); ob.n += 1; } println(\"main\", l.len(), ob.n); }\n"
+            % (ty, read, argx), ["child " + shown, "main 151 151"])
+    for sname, ty, argx, mut in (("list", "[int]", "l", "a.push(i); a[0] = 9;"), ("option-of-list", "?[int]", "?l", "a.unwrap().push(i); a.unwrap()[0] = 9;"),
+                                 ("object", "{ n: int, l: [int] }", "ob", "a.l.push(i); a.n += 1;"),
+                                 ("option-of-object", "?{ n: int, l: [int] }", "?ob", "a.unwrap().l.push(i); a.unwrap().n += 1;"),
+                                 ("list-of-options", "[?[int]]", "[?l]", "a[0].unwrap().push(i);"), ("list-of-texts", "[str]", "ts", "a[0] = \"changed\"; a.push(\"x\");")):
+        shared["arg-%s-mutated-by-thread" % sname] = (
+            "fn child(a: %s) { for i in 0..150 { %s } println(\"child\"); }\n"
+            "fn main() { let l = [1]; let ts = [\"a\", \"b\"]; let ob = new { n: 1, l: l }; spawn child(%s); let s = 0; for i in 0..3000 { s += l.len() + ob.n + ts.len(); } "
+            "println(\"main\", l, ob.n, ts, s); }\n" % (ty, mut, argx), ["child", "main [1] 1 [a, b] 12000"])
     sreqs = []
     smeta = []
     for name, (src, want) in shared.items():
@@ -226,8 +251,16 @@ def run(args):
         elif "hang" in r:
             rep.fail(dict(feat, kind="hang"), {"program": src})
         else:
-            got = sorted(l for l in r["r"]["out"].split("\n") if l)
-            if got != sorted(want) or r["r"]["outcome"]["kind"] != "done":
+            # (what a thread prints stays together; the threads' outputs may come in any order)
+            got = r["r"]["out"]
+            rest = got
+            for w in want:
+                if w + "\n" in rest:
+                    rest = rest.replace(w + "\n", "", 1)
+                else:
+                    rest = None
+                    break
+            if rest != "" or r["r"]["outcome"]["kind"] != "done":
                 rep.fail(dict(feat, kind="output"), {"program": src, "out": r["r"]["out"], "want": want,
                                                     "outcome": r["r"]["outcome"]})
     rep.notes["race_detector_runs"] = nrace
